@@ -60,7 +60,11 @@ fn highlight_line_with_hunks(
 
         // Add the part before the match with base style
         if col > last_end && col <= line.len() {
-            result.push_str(&base_style.paint(&line[last_end..col]).to_string());
+            result.push_str(
+                &base_style
+                    .paint(line.get(last_end..col).unwrap_or(""))
+                    .to_string(),
+            );
         }
 
         // Add the highlighted match with brighter background (word-level highlight)
@@ -81,14 +85,22 @@ fn highlight_line_with_hunks(
                     .on(AnsiColor::Rgb(0x00, 0xA9, 0x58))
                     .fg(AnsiColor::Rgb(0xFF, 0xFF, 0xFF))
             };
-            result.push_str(&highlight_style.paint(&line[col..end]).to_string());
+            result.push_str(
+                &highlight_style
+                    .paint(line.get(col..end).unwrap_or(""))
+                    .to_string(),
+            );
             last_end = end;
         }
     }
 
     // Add any remaining part with base style
     if last_end < line.len() {
-        result.push_str(&base_style.paint(&line[last_end..]).to_string());
+        result.push_str(
+            &base_style
+                .paint(line.get(last_end..).unwrap_or(""))
+                .to_string(),
+        );
     }
 
     result
@@ -189,7 +201,11 @@ pub fn render_diff(plan: &Plan, use_color: bool) -> String {
                 // Apply replacements from right to left to maintain positions
                 for hunk in sorted_hunks {
                     let col = hunk.byte_offset as usize;
-                    if col < after_line.len() && after_line[col..].starts_with(&hunk.content) {
+                    // `col` is a byte column of the raw line; the line text may have been decoded lossily
+                    if after_line
+                        .get(col..)
+                        .is_some_and(|tail| !tail.is_empty() && tail.starts_with(&hunk.content))
+                    {
                         let end = col + hunk.content.len();
                         after_line.replace_range(col..end, &hunk.replace);
                     }
